@@ -1,14 +1,14 @@
 (* C15 model driver: executes a cursor script on the extracted Coq model and prints one canonical
    observation line per operation (same format as harness/vdrv_cursor.c).
-   argv[1] = comma-separated proposed repairs the model should mirror ("clip", "empty", "switch"),
-   default: the code as it is. *)
+   argv[1] = comma-separated repairs the model mirrors ("clip" = 1a3b6d2, "empty" = 0775c26,
+   "switch" = 2b32386); props/C15.py passes all three (the tree); without argument: the code before them. *)
 open Model
 open Vutil
 
 let variant = if Array.length Sys.argv > 1 then String.split_on_char ',' Sys.argv.(1) else []
-let fixed = List.mem "clip" variant       (* notes/fix_C15_1.diff *)
-let v_empty = List.mem "empty" variant    (* notes/fix_C15_2.diff *)
-let v_switch = List.mem "switch" variant  (* notes/fix_C15_3.diff *)
+let fixed = List.mem "clip" variant
+let v_empty = List.mem "empty" variant
+let v_switch = List.mem "switch" variant
 
 let zi s = z_of_int (int_of_string s)
 let zhex s = z_of_int (int_of_string ("0x" ^ s))
